@@ -771,7 +771,24 @@ class SymList:
             return z3.simplify(self.len + i)
         return _z(i)
 
+    def _bounds(self, k):
+        """(start, stop) of a slice with step 1, clamped to the list the way Python / numpy clamp them"""
+        if k.step not in (None, 1):
+            raise Unsupported("slice with a step")
+
+        def norm(v, default):
+            if v is None:
+                return default
+            e = self._index(v)
+            return z3.If(e < 0, z3.IntVal(0), z3.If(e > self.len, self.len, e))
+        lo, hi = norm(k.start, z3.IntVal(0)), norm(k.stop, self.len)
+        return z3.simplify(lo), z3.simplify(z3.If(hi < lo, lo, hi))
+
     def item(self, i):
+        if isinstance(i, slice):
+            lo, hi = self._bounds(i)
+            j = z3.Int("j!slice")
+            return SymVec(z3.simplify(hi - lo), z3.Lambda([j], z3.Select(self.arr, lo + j)))
         i = self._index(i)
         if not ctx().decide(z3.And(i >= 0, i < self.len), "index in range"):
             raise SymIndexError("list index out of range")
@@ -780,6 +797,18 @@ class SymList:
     __getitem__ = item
 
     def __setitem__(self, i, v):
+        if isinstance(i, slice):
+            # numpy semantics (arrays of numbers): the right-hand side is a scalar or has exactly the length of the slice
+            lo, hi = self._bounds(i)
+            j = z3.Int("j!slice")
+            if isinstance(v, (SymVec, SymList)):
+                if not ctx().decide(v.len == hi - lo, "the assigned values have the length of the slice"):
+                    raise ValueError("could not broadcast input array into the shape of the slice")
+                new = z3.Select(v.arr, j - lo)
+            else:
+                new = _to_real(_z(v))
+            self.arr = z3.Lambda([j], z3.If(z3.And(lo <= j, j < hi), new, z3.Select(self.arr, j)))
+            return
         i = self._index(i)
         if not ctx().decide(z3.And(i >= 0, i < self.len), "index in range"):
             raise SymIndexError("list assignment index out of range")
@@ -827,6 +856,58 @@ class SymList:
 
     def __iter__(self):
         raise Unsupported("iteration over a symbolic list outside a `for` statement")
+
+
+class SymVec:
+    """an immutable vector of numbers given by its length and a (lambda) array: what slicing a SymList and elementwise numpy
+    arithmetic on such slices produce.  Two vectors combine only when their lengths agree (numpy would raise otherwise)."""
+
+    def __init__(self, length, arr):
+        self.len, self.arr = length, arr
+
+    def length(self):
+        return Rv(self.len)
+
+    def _with(self, other, op, rev=False):
+        j = z3.Int("j!vec")
+        a = z3.Select(self.arr, j)
+        if isinstance(other, (SymVec, SymList)):
+            if not ctx().decide(other.len == self.len, "the two vectors have the same length"):
+                raise ValueError("operands could not be broadcast together")
+            b = z3.Select(other.arr, j)
+        else:
+            b = _to_real(_z(other))
+        x, y = (b, a) if rev else (a, b)
+        body = {"add": lambda: x + y, "sub": lambda: x - y, "mul": lambda: x * y, "div": lambda: x / y}[op]()
+        return SymVec(self.len, z3.Lambda([j], body))
+
+    def __add__(s, o): return s._with(o, "add")
+    def __radd__(s, o): return s._with(o, "add", True)
+    def __sub__(s, o): return s._with(o, "sub")
+    def __rsub__(s, o): return s._with(o, "sub", True)
+    def __mul__(s, o): return s._with(o, "mul")
+    def __rmul__(s, o): return s._with(o, "mul", True)
+
+    def __truediv__(s, o):
+        if isinstance(o, (SymVec, SymList)):
+            raise Unsupported("division by a vector")
+        if not ctx().decide(_to_real(_z(o)) != 0, "divisor is not zero"):
+            raise ZeroDivisionError("division by zero")
+        return s._with(o, "div")
+
+    def __neg__(s): return s._with(-1, "mul")
+
+    def item(self, i):
+        if isinstance(i, slice):
+            raise Unsupported("slice of a slice")
+        i = z3.simplify(self.len + i) if isinstance(i, int) and not isinstance(i, bool) and i < 0 else _z(i)
+        if not ctx().decide(z3.And(i >= 0, i < self.len), "index in range"):
+            raise SymIndexError("index out of range")
+        return Rv(z3.simplify(z3.Select(self.arr, i)))
+    __getitem__ = item
+
+    def __iter__(self):
+        raise Unsupported("iteration over a symbolic vector")
 
 
 class SymSeq:
